@@ -364,6 +364,68 @@ pub fn run(ctx: &mut Ctx) -> (&'static str, String, bool) {
         ctx.merge(p);
     }
 
+    // ---- element counts whose byte size sits on a power-of-two boundary (a parser that reads in blocks has its edge
+    //      cases exactly there): n, n+1 for n*size = 4 KiB ... 128 KiB, for each counted collection -------------------
+    if !miri {
+        let mut jobs: Vec<(u8, usize)> = vec![];
+        for kib in [4usize, 8, 16, 32, 64, 128] {
+            let bytes = kib * 1024;
+            for (which, size) in [(0u8, 40usize), (1, 16), (2, 8), (3, 4)] {
+                let n = bytes / size;
+                for m in [n, n + 1, n.saturating_sub(1), 2 * n] {
+                    if m * size <= 300 * 1024 {
+                        jobs.push((which, m));
+                    }
+                }
+            }
+        }
+        jobs.sort();
+        jobs.dedup();
+        let base = base_rng.fork(171717);
+        let parts: Vec<Part> = jobs
+            .par_iter()
+            .enumerate()
+            .map(|(ji, (which, n))| {
+                let mut p = Part::new();
+                let mut r = base.fork(ji as u64);
+                let (fmt, canonical, w) = if *which == 0 {
+                    let mut x = gen_pth(&mut r, 2);
+                    let node = gen_pth(&mut r, 1).nodes.pop().unwrap_or_default();
+                    x.nodes = vec![node; *n];
+                    let canonical = ref_pth_bytes(&x);
+                    let w = guarded(|| {
+                        let mut c = Cursor::new(Vec::new());
+                        x.write(&mut c).map(|_| c.into_inner()).map_err(|e| e.to_string())
+                    })
+                    .unwrap_or_else(Err);
+                    (Fmt::Pth, canonical, w)
+                } else {
+                    let mut x = gen_smx(&mut r, 0, 0, 0, 1);
+                    let pt = ObjectPoint { xyz: Point { x: 1, y: 2, z: 3 }, colour: Argb { a: 1, rgb: Rgb { r: 2, g: 3, b: 4 } } };
+                    let tri = Triangle { a: 0, b: 1, c: 2 };
+                    match which {
+                        1 => x.objects = vec![Object { center: Point { x: 0, y: 0, z: 0 }, radius: 1, points: vec![pt; *n], triangles: vec![tri] }],
+                        2 => x.objects = vec![Object { center: Point { x: 0, y: 0, z: 0 }, radius: 1, points: vec![pt; 3], triangles: vec![tri; *n] }],
+                        _ => x.checkpoint_object_index = (0..*n as i32).collect(),
+                    }
+                    let canonical = ref_smx_bytes(&x);
+                    let w = guarded(|| {
+                        let mut c = Cursor::new(Vec::new());
+                        x.write(&mut c).map(|_| c.into_inner()).map_err(|e| e.to_string())
+                    })
+                    .unwrap_or_else(Err);
+                    (Fmt::Smx, canonical, w)
+                };
+                p.count("block_boundary_files", 1);
+                check_valid(fmt, &canonical, w, &mut p, false, &mut r);
+                p
+            })
+            .collect();
+        for p in parts {
+            ctx.merge(p);
+        }
+    }
+
     // ---- hostile counts ------------------------------------------------------------------------------
     {
         let mut p = Part::new();
